@@ -22,7 +22,7 @@ EXTENDS Naturals, Sequences, FiniteSets, TLC
 CONSTANTS ReqX, ReqY, MaxGen,
           NSnd, NRcv, NCtl,        \* operations each task may start
           SndOps, RcvOps, CtlOps,  \* alphabets
-          Deviations               \* GateNames \cup {"AuthFailOpen", "RecheckSlotAtEmit"}
+          Deviations               \* subset of GateNames \cup {"AuthFailOpen"}
 
 VARIABLES req, gen,
           bslot, bflag,            \* rewrite_bridge slot ("None"/"X"/"Y") and has_bridge flag
@@ -35,7 +35,7 @@ view == <<req, gen, bslot, bflag, pc, loc, left>>
 
 Tr == {"X", "Y"}
 Task == {"snd", "rcv", "ctl"}
-NoLoc == [op |-> "", slot |-> 0, tgt |-> "None", out |-> "", auth |-> "none"]
+NoLoc == [op |-> "", slot |-> 0, tgt |-> "None", out |-> "", auth |-> "none", unspec |-> FALSE]
 
 Init ==
   /\ req \in [Tr -> BOOLEAN] /\ req["X"] \in ReqX /\ req["Y"] \in ReqY
@@ -69,7 +69,9 @@ Took(k, op, lbl, newloc, w, d, auth, start) ==
   /\ last' = [task |-> k, op |-> op, lbl |-> lbl, w |-> w, d |-> d,
               aw |-> [t \in Tr |-> AllowedCls(t)], rw |-> [t \in Tr |-> EgressRule(t)],
               ad |-> IF auth = "none" THEN FALSE ELSE DeliverAllowed(auth), start |-> start]
-  /\ hist' = Append(hist, [task |-> k, op |-> IF start THEN op ELSE "", lbl |-> lbl])
+  \* u: the outcome of this step is not specified (a protected packet taken as plain RTP/RTCP by a transport
+  \* without session and without the SRTP requirement parses or not) - the replayer does not compare it exactly
+  /\ hist' = Append(hist, [task |-> k, op |-> IF start THEN op ELSE "", lbl |-> lbl, u |-> (~start /\ loc[k].unspec)])
 
 GateOf(op) == CASE op = "S" -> "send" [] op = "SR" -> "send_rtp" [] op = "SC" -> "send_rtcp" [] op = "BYE" -> "sync_bye"
 
@@ -88,8 +90,7 @@ SndStart(op) ==
 
 SndSlotToEmit ==   \* send / send_rtp: gate on the snapshot, protect, transport.send
   /\ pc["snd"] = "snd.slot"
-  /\ LET s == IF "RecheckSlotAtEmit" \in Deviations /\ loc["snd"].slot = 0 /\ ~req["X"] THEN 0 ELSE loc["snd"].slot
-         o == Decide("X", GateOf(loc["snd"].op), s) IN
+  /\ LET o == Decide("X", GateOf(loc["snd"].op), loc["snd"].slot) IN
      Took("snd", loc["snd"].op, "idle", NoLoc, Wire("X", o), <<>>, "none", FALSE)
   /\ UNCHANGED <<req, gen, bslot, bflag>>
 
@@ -100,12 +101,14 @@ SndEmit ==
 
 ---------------------------------------------------------------------------
 (* rcv                                                                      *)
-AuthOf(op) == IF op[2] = "c" THEN "clear" ELSE IF op[2] = "v" THEN "valid" ELSE "forged"
+AuthOf(op) == IF op \in {"RcR", "RcC"} THEN "clear" ELSE IF op \in {"RvR", "RvC"} THEN "valid" ELSE "forged"
+KindOf(op) == IF op \in {"RcC", "RvC", "RfC"} THEN "rtcp" ELSE "rtp"
 
 RcvStart(op, kind, auth) ==    \* slot read
   /\ pc["rcv"] = "idle" /\ left["rcv"] > 0
   /\ Took("rcv", op, IF kind = "rtcp" THEN "rcv.rtcp_slot" ELSE "rcv.rtp_slot",
-          [NoLoc EXCEPT !.op = op, !.slot = gen["X"], !.auth = auth], <<>>, <<>>, "none", TRUE)
+          [NoLoc EXCEPT !.op = op, !.slot = gen["X"], !.auth = auth,
+                        !.unspec = (auth # "clear" /\ gen["X"] = 0 /\ ~req["X"])], <<>>, <<>>, "none", TRUE)
   /\ UNCHANGED <<req, gen, bslot, bflag>>
 
 RcvRtcpGate ==   \* unprotect / gate on the snapshot, then the RTCP listener
@@ -169,7 +172,7 @@ CtlBridgeFlag ==            \* has_bridge.store(...)
 Next ==
   \/ \E op \in SndOps : SndStart(op)
   \/ SndSlotToEmit \/ SndEmit
-  \/ \E op \in RcvOps : RcvStart(op, IF op[3] = "C" THEN "rtcp" ELSE "rtp", AuthOf(op))
+  \/ \E op \in RcvOps : RcvStart(op, KindOf(op), AuthOf(op))
   \/ RcvRtcpGate \/ RcvRtpGate \/ RcvBridge \/ RcvTarget \/ RcvEmit
   \/ ("KX" \in CtlOps /\ CtlKeys("KX", "X")) \/ ("KY" \in CtlOps /\ CtlKeys("KY", "Y"))
   \/ ("BX" \in CtlOps /\ CtlBridgeSlot("BX", "X")) \/ ("BY" \in CtlOps /\ CtlBridgeSlot("BY", "Y"))
@@ -181,11 +184,13 @@ Spec == Init /\ [][Next]_vars
 ---------------------------------------------------------------------------
 (* Property C14 for every interleaving: whatever a step puts on the wire or  *)
 (* hands to a sink is allowed in the state in which it does so.              *)
-NoClearEgress == \A i \in DOMAIN last.w :
-                    (req[last.w[i].tr] /\ gen[last.w[i].tr] > 0) => last.w[i].cls = "protected"
-NothingBeforeKeys == \A i \in DOMAIN last.w : req[last.w[i].tr] => gen[last.w[i].tr] > 0
-NoClearIngress == (req["X"] /\ Len(last.d) > 0) => last.ad
-\* (gen and req are unchanged by any step that emits or delivers, so the post-state is the state of the step)
+\* (action properties: TLC evaluates them on every transition, also into states already seen under the VIEW)
+EgressOK == [][ \A i \in DOMAIN last'.w :
+                  req[last'.w[i].tr] => (gen[last'.w[i].tr] > 0 /\ last'.w[i].cls = "protected") ]_vars
+IngressOK == [][ (req["X"] /\ Len(last'.d) > 0) => last'.ad ]_vars
+\* the per-step allowances shipped to the replayer are not looser than that
+AllowedInside == [][ /\ \A i \in DOMAIN last'.w : last'.w[i].cls \in last'.aw[last'.w[i].tr]
+                     /\ \A t \in Tr : req[t] => (last'.aw[t] \subseteq {"protected"} /\ (gen[t] = 0 => last'.aw[t] = {})) ]_vars
 
 TypeOK ==
   /\ gen \in [Tr -> 0..MaxGen] /\ bslot \in {"None", "X", "Y"} /\ bflag \in BOOLEAN
